@@ -149,6 +149,9 @@ func runTrace(env *core.Env, t Trace, verbose bool) bool {
 		case "alt_differs": // main branch and alternative branch end differently (exit code of the last step or observable state)
 			last := snaps[len(t.Steps)]
 			ok = last.res.Exit != altLast.Exit || last.obs.Norm(nil) != altObs.Norm(nil)
+		case "alt_differs_by_title": // like alt_differs, but ids are random in both branches: compare through the title map
+			last := snaps[len(t.Steps)]
+			ok = last.obs.Fail != "" || last.obs.Norm(last.obs.TitleMap()) != altObs.Norm(altObs.TitleMap())
 		case "has_waits_for_cycle": // the effective waits-for relation observed after the step contains a cycle
 			rel, _ := waitsFor(s.obs)
 			ok = s.obs.Fail == "" && findCycle(rel) != nil
